@@ -57,6 +57,8 @@ package job
 //@   params taskRefs, filter
 //@   ensures len(result) <= len(taskRefs)
 
+// the list records the task under its name with the status the task object reports (so not as lost)
+//@ pure notLost(refs []execution.TaskRef, t jobtasks.Task) bool = exists i int :: 0 <= i && i < len(refs) && refs[i].Name == jobtasks.taskName(t) && refs[i].Status == jobtasks.taskRefOf(t).Status
 //@ func UpdateJobTaskRefs
 //@   tags C09, C11
 //@   requires rj != nil
@@ -66,6 +68,7 @@ package job
 //@   ensures [C11] start-time-untouched: result.Status.StartTime == rj.Status.StartTime
 //@   ensures [C09] listed-tasks-never-forgotten: forall k int :: 0 <= k && k < len(rj.Status.Tasks) ==> hasRef(result.Status.Tasks, rj.Status.Tasks[k].Name)
 //@   ensures [C09] present-tasks-listed: forall j int :: 0 <= j && j < len(tasks) ==> hasRef(result.Status.Tasks, jobtasks.taskName(tasks[j]))
+//@   ensures [C09] present-task-never-marked-lost: forall j int :: 0 <= j && j < len(tasks) ==> notLost(result.Status.Tasks, tasks[j])
 //@   ensures [C11] created-counter-matches-list: result.Status.CreatedTasks == len(result.Status.Tasks)
 //@   ensures clock >= old(clock)
 //@   ensures [C11] running-counter-bounded: 0 <= result.Status.RunningTasks && result.Status.RunningTasks <= len(result.Status.Tasks)
